@@ -86,7 +86,7 @@ Definition bit_agree (tol : Qc) (s : Qc) (b : bool) : bool :=
   if Qcleb (Qc_abs (s - 1)%Qc) tol && negb (Qc_eqb tol 0%Qc) then true else Bool.eqb b (negb (Qcleb 1%Qc s)).
 Definition tab3 {A} (nx ny nz : nat) (f : nat -> nat -> nat -> A) : list (list (list A)) :=
   map (fun i => map (fun j => map (fun k => f i j k) (seq 0 nz)) (seq 0 ny)) (seq 0 nx).
-Fixpoint all3 (l : list (list (list bool))) : bool := forallb (forallb (forallb (fun b => b))) l.
+Definition all3 (l : list (list (list bool))) : bool := forallb (forallb (forallb (fun b => b))) l.
 Definition zip3 {A B C} (f : A -> B -> C) (a : list (list (list A))) (b : list (list (list B))) : list (list (list C)) :=
   map (fun p => map (fun q => map (fun r => f (fst r) (snd r)) (combine (fst q) (snd q))) (combine (fst p) (snd p))) (combine a b).
 Definition same_shape3 {A B} (a : list (list (list A))) (b : list (list (list B))) : bool :=
@@ -98,7 +98,7 @@ Definition sphere_agree (tol : Qc) (ax ay az : Axis QcOF) (rx ry rz : Qc) (impl 
   same_shape3 m impl && all3 (zip3 (bit_agree tol) m impl).
 Definition cyl_agree (tol : Qc) (axis : nat) (n3 : nat * nat * nat) (ah av : Axis QcOF) (r : Qc) (impl : list (list (list bool))) : bool :=
   let '(nx, ny, nz) := n3 in
-  let m := tab3 nx ny nz (fun i j k => let '(a, b) := transverse axis i j k in cyl_sum QcOF ah av r a b) in
+  let m := tab3 nx ny nz (fun i j k => cyl_sum QcOF ah av r (fst (transverse axis i j k)) (snd (transverse axis i j k))) in
   same_shape3 m impl && all3 (zip3 (bit_agree tol) m impl).
 (* polygons: cells flagged in [skip] (centre closer than the tolerance to a polygon edge) are not compared *)
 Definition poly_agree (axis : nat) (n3 : nat * nat * nat) (ah av : Axis QcOF) (verts : list (Qc * Qc))
@@ -106,4 +106,4 @@ Definition poly_agree (axis : nat) (n3 : nat * nat * nat) (ah av : Axis QcOF) (v
   let '(nx, ny, nz) := n3 in
   let m := tab3 nx ny nz (fun i j k => poly_mask QcOF axis ah av verts i j k) in
   same_shape3 m impl && same_shape3 m skip &&
-  all3 (zip3 (fun mb si => if fst si then true else Bool.eqb mb (snd si)) m (zip3 pair skip impl)).
+  all3 (zip3 (fun (mb : bool) (si : bool * bool) => if fst si then true else Bool.eqb mb (snd si)) m (zip3 (@pair bool bool) skip impl)).
